@@ -199,6 +199,36 @@ def b_rodrigues(ctx):
     return out
 
 
+def b_rodrigues_at(ctx, angle):
+    """the same identity for a CONCRETE angle handed to the real qchichange with the real math module (whatever
+    it does to the angle before taking cos / sin: reduction, folding, unit conversion), axis and point symbolic;
+    the reference uses cos / sin of the requested angle itself"""
+    from fractions import Fraction
+
+    from pdb2pqr import quatfit
+
+    u = ctx.unit("u")
+    L = ctx.positive("L")
+    p = ctx.vec("p")
+    axis = [L * x for x in u]
+    rad = math.pi * angle / 180.0
+    # the code forms 1.0 - cos in floating point before it meets the coordinates: the reference uses the same constant
+    Cf, Sf = math.cos(rad), math.sin(rad)
+    Mf = 1.0 - Cf
+    if ctx.symbolic:
+        C, S, M = (core.SymReal(core.rv(v)) for v in (Cf, Sf, Mf))  # floats enter the exact model the same way the code's own constants do
+        env = [(quatfit, "normalize", lambda v: list(u))]
+    else:
+        C, S, M = Cf, Sf, Mf
+        env = []
+    with patched(*env):
+        out_p = quatfit.qchichange(axis, [p], angle)[0]
+    uxp = _cross(u, p)
+    up = _dot(u, p)
+    want = [C * p[k] + S * uxp[k] + M * up * u[k] for k in range(3)]
+    return [(f"qchichange({angle} deg) = right-handed Rodrigues by {angle} deg [{k}]", out_p[k], want[k]) for k in range(3)]
+
+
 def b_torsion(ctx):
     """rotating atom 4 about the 2-3 axis by delta (the real qchichange, as
     set_dihedral_angle does) turns the torsion measured by the real
@@ -273,7 +303,7 @@ def _torsion_atan2(a, b, c, d):
     return math.degrees(math.atan2(_dot(m1, n2), _dot(n1, n2)))
 
 
-BODIES = {"q2mat": b_q2mat, "horn": b_horn, "place": b_place, "rodrigues": b_rodrigues, "torsion": b_torsion}
+BODIES = {"q2mat": b_q2mat, "horn": b_horn, "place": b_place, "rodrigues": b_rodrigues, "torsion": b_torsion, "rodrigues_at": b_rodrigues_at}
 
 
 def run_lemma(body, timeout_s=120, **kw):
@@ -364,11 +394,66 @@ def h_jacobi_rotation(eng, i, j):
     eng.check(And(dvec[0] <= dvec[1], dvec[1] <= dvec[2], dvec[2] <= dvec[3]), "ascending")
 
 
+def h_dihedral_record(eng, resname, anglenum):
+    """after Debump.set_dihedral_angle the recorded torsion (residue.dihedrals[n], from which the NEXT call
+    computes its rotation) is the torsion of the coordinates as they are NOW.  utilities.dihedral is an
+    uninterpreted function of the four positions it is handed; the rotation result is arbitrary."""
+    from pdb2pqr import debump, utilities
+
+    from . import c04
+
+    bm, res = c04._setup(resname, "internal", False)
+    names = res.reference.dihedrals[anglenum].split()
+    moved = res.get_moveable_names(names[2])
+    deb = debump.Debump(bm)
+
+    class NoCells:
+        def add_cell(self, a):
+            pass
+
+        def remove_cell(self, a):
+            pass
+
+    deb.cells = NoCells()
+    pivot = res.get_atom(names[1]).coords
+    fresh = {nm: [eng.real(f"{nm}_{ax}_new") for ax in "xyz"] for nm in moved}
+
+    class Quat:
+        @staticmethod
+        def qchichange(initcoords, movecoords, diff):
+            return [[fresh[nm][k] - pivot[k] for k in range(3)] for nm in moved]
+
+    memo = {}
+
+    def key_of(coords):
+        return tuple((z3.simplify(v.t).get_id() if core.is_sym(v) else ("c", float(v))) for c in coords for v in c)
+
+    def dihedral(c0, c1, c2, c3):
+        k = key_of((c0, c1, c2, c3))
+        if k not in memo:
+            memo[k] = eng.real(f"torsion_of_positions_{len(memo)}")
+        return memo[k]
+
+    target = eng.real("target_angle")
+    sym = [(utilities, "np", shims.NP), (utilities, "dihedral", dihedral), (debump, "int", core.sym_int_t)] if eng.symbolic else []
+    with patched(*sym, (debump, "quat", Quat)):
+        deb.set_dihedral_angle(res, anglenum, target)
+        now = [res.get_atom(n).coords for n in names]
+        recorded = res.dihedrals[anglenum]
+        if eng.symbolic:
+            want = dihedral(*now)  # positions are compared as simplified terms ((new - pivot) + pivot = new)
+            eng.check(core.same(recorded, want), "recorded-torsion-is-the-current-one", note=f"{resname} chi{anglenum + 1}: residue.dihedrals holds the torsion of other positions than the atoms' current ones")
+        else:
+            want = utilities.dihedral(*now)
+            eng.check(abs((recorded - want + 180.0) % 360.0 - 180.0) < 1e-6, "recorded-torsion-is-the-current-one", note=f"{resname} chi{anglenum + 1}: residue.dihedrals holds {recorded}, the coordinates show {want}")
+
+
 def obligations(tier):
     obs = [
         Obligation("lemma-q2mat", run_lemma, dict(body="q2mat"), kind="lemma", group="lemma"),
         Obligation("lemma-rodrigues", run_lemma, dict(body="rodrigues"), kind="lemma", group="lemma"),
         Obligation("lemma-torsion", run_lemma, dict(body="torsion", timeout_s=240), kind="lemma", group="lemma"),
+        *[Obligation(f"lemma-rodrigues-at-{a}", run_lemma, dict(body="rodrigues_at", angle=a), kind="lemma", group="lemma") for a in ((200.0, -200.0, 365.0, 181.0, -180.0) if tier == "quick" else (200.0, -200.0, 270.0, -270.0, 365.0, -365.0, 540.0, 180.0, -180.0, 181.0, 179.5, 720.25, 5.0, -120.0, 240.0, 359.0))],
     ]
     for n in (1, 2, 3) if tier == "quick" else (1, 2, 3, 4, 5):
         obs.append(Obligation(f"lemma-horn-n{n}", run_lemma, dict(body="horn", n=n), kind="lemma", group="lemma"))
@@ -376,6 +461,8 @@ def obligations(tier):
         obs.append(Obligation(f"lemma-place-n{n}", run_lemma, dict(body="place", n=n), kind="lemma", group="lemma"))
     # h_jacobi_rotation (one real rotation step on a symbolic matrix) was probed: z3 answers unknown
     # after 60 s on the eigen-equations through 1/(|q|+sqrt(1+q^2)); it is not registered (DESIGN 2.1.6)
+    for resname, k in (("LYS", 0), ("LYS", 3)) if tier == "quick" else (("LYS", 0), ("LYS", 1), ("LYS", 2), ("LYS", 3), ("SER", 0), ("ARG", 2), ("MET", 1), ("HIS", 1)):
+        obs.append(Obligation(f"dihedral-record-{resname}-chi{k + 1}", h_dihedral_record, dict(resname=resname, anglenum=k), group="dihedral-record", time_cap=600))
     obs.append(Obligation("jacobi-sorted-nonzero", h_jacobi_sorted, dict(zero_allowed=False), group="jacobi", time_cap=1200))
     obs.append(Obligation("jacobi-sorted-zero-allowed", h_jacobi_sorted, dict(zero_allowed=True), group="jacobi", time_cap=1200))
     return obs
